@@ -38,9 +38,9 @@ func (prop) ID() string { return "C08" }
 
 func (prop) Plan(tier string) []core.Phase {
 	if tier == "thorough" {
-		return []core.Phase{{Name: "net", Runs: 12000000}}
+		return []core.Phase{{Name: "net", Runs: 100000000}}
 	}
-	return []core.Phase{{Name: "net", Runs: 400000}}
+	return []core.Phase{{Name: "net", Runs: 2500000}}
 }
 
 func (prop) Describe() core.Description {
